@@ -942,6 +942,8 @@ def main():
     items, _ = texts.generate(a.seed, a.n)
     stream = [(kind, tree.runes_text(tree.go_runes(data))) for kind, data in items]
     stream += formatter_stream(rng, real, a.gen_programs)
+    if os.environ.get("VERIF_REPLAY_DSL"):
+        stream = [("fmt:compilable:replay", os.environ["VERIF_REPLAY_DSL"])]      # ./check <ID> --replay <file>
 
     dev = Deviations()
     stats = collections.Counter()
